@@ -5,8 +5,10 @@ import (
 	"fmt"
 	"os"
 	"os/exec"
+	"runtime"
 	"strings"
 	"sync"
+	"sync/atomic"
 
 	"verif/rt"
 )
@@ -106,7 +108,9 @@ func coldGeneric(first []func(), work func(w *rt.W, k int), nWork int) func(c *r
 	return func(c *rt.Ctx, idx int) {
 		f := first[idx%len(first)]
 		if idx >= len(first) { // first calls arrive from 16 goroutines at once
+			var ready int32
 			c.Parallel("cold", 16, func(w *rt.W) {
+				coldBarrier(&ready, 16)
 				f()
 				for k := 0; k < 3; k++ {
 					work(w, (w.Shard+k*5)%nWork)
@@ -120,5 +124,15 @@ func coldGeneric(first []func(), work func(w *rt.W, k int), nWork int) func(c *r
 				work(w, k)
 			}
 		})
+	}
+}
+
+// coldBarrier releases n goroutines together (spin barrier: the point is that their first calls overlap).
+func coldBarrier(ready *int32, n int32) {
+	atomic.AddInt32(ready, 1)
+	for spins := 0; atomic.LoadInt32(ready) < n && spins < 50000000; spins++ {
+		if spins%1000 == 999 {
+			runtime.Gosched()
+		}
 	}
 }
